@@ -217,9 +217,7 @@ class SimNet:
         world.log("tx", tx.idx, sock.owner.name, sock.label, dst_ip, dst_port, data)
         if self.on_tx is not None:
             self.on_tx(tx)
-        if sock.owner.name in self.partitioned:
-            self.fault_counts["partition_drop"] += 1
-            return
+        cut_off = sock.owner.name in self.partitioned
         if is_mcast(dst_ip):
             receivers = [s for s in self.sockets
                          if not s.closed and s.port == dst_port and s.joined and s.accepts_family(v6)]
@@ -233,7 +231,8 @@ class SimNet:
                 cands = [cands[k % len(cands)]]
             receivers = cands
         for rsock in receivers:
-            if rsock.owner.name in self.partitioned:
+            # a partition cuts the link, not the loop-back inside the sender's own IP stack
+            if (cut_off or rsock.owner.name in self.partitioned) and rsock.owner is not sock.owner:
                 self.fault_counts["partition_drop"] += 1
                 continue
             self._schedule(tx, sock, rsock, src, v6)
@@ -310,9 +309,6 @@ class SimNet:
     # --------------------------------------------------------------- deliver
     def _deliver(self, rsock, data, addr, tx_idx, copies):
         world = self.world
-        if rsock.owner.name in self.partitioned:
-            self.fault_counts["partition_drop"] += 1
-            return
         for copy in range(copies):
             if rsock.closed or (rsock.transport is not None and not rsock.transport._receiving
                                 and rsock.transport._closing):
